@@ -519,10 +519,9 @@ where
     fn split_text<'b>(&'slf self, delimiter: &'b str) -> SplitTextIter<'store, 'b> {
         SplitTextIter {
             resource: self.resource(),
-            iter: self.store().text().split(delimiter),
-            byteoffset: self
-                .subslice_utf8_offset(self.text())
-                .expect("subslice must succeed for split_text"),
+            //(pieces are slices of the resource's text, their absolute byte offsets are derived from that)
+            iter: self.text().split(delimiter),
+            byteoffset: 0,
         }
     }
 
@@ -746,10 +745,9 @@ where
     fn split_text<'b>(&'slf self, delimiter: &'b str) -> SplitTextIter<'store, 'b> {
         SplitTextIter {
             resource: self.resource(),
-            iter: self.store().text().split(delimiter),
-            byteoffset: self
-                .subslice_utf8_offset(self.text())
-                .expect("subslice must succeed for split_text"),
+            //(pieces are slices of the resource's text, their absolute byte offsets are derived from that)
+            iter: self.text().split(delimiter),
+            byteoffset: 0,
         }
     }
 
